@@ -21,7 +21,7 @@ from mc.ref import ndn_strict as ns
 
 PROPERTY = 'C19'
 PREFIX = '/obj/v1'
-FINALS = ['last-only', 'every', 'absent', 'earlier']
+FINALS = ['last-only', 'every', 'absent', 'earlier', 'other-type']
 
 
 def configs():
@@ -44,7 +44,7 @@ def final_of(cfg, seg):
         return n - 1
     if f == 'earlier':
         return max(n - 2, 0)
-    return None
+    return None        # 'absent', and 'other-type' (a FinalBlockId that is never equal to the last name component)
 
 
 def reference(cfg, decisions):
@@ -67,7 +67,7 @@ def reference(cfg, decisions):
                 d = 'd'
             if d == 'a':
                 return 'ok'
-            if d == 'n':
+            if d in ('n', 'N'):
                 return 'nack'
             if d == 'i':
                 return 'invalid'
@@ -120,8 +120,11 @@ def execute(cfg, decisions):
 
         def seg_data(seg):
             fb = final_of(cfg, seg)
-            mi = enc.MetaInfo(freshness_period=1000,
-                              final_block_id=None if fb is None else bytes(enc.Component.from_segment(fb)))
+            fbid = None if fb is None else bytes(enc.Component.from_segment(fb))
+            if cfg['final'] == 'other-type':
+                # the number of this very segment, but as a generic (not a segment) component: not the last name component
+                fbid = bytes(enc.Component.from_number(seg, enc.Component.TYPE_GENERIC))
+            mi = enc.MetaInfo(freshness_period=1000, final_block_id=fbid)
             return bytes(enc.make_data(base + [enc.Component.from_segment(seg)], mi, b'segment-%d' % seg, DigestSha256Signer()))
 
         def on_send(wire):
@@ -143,8 +146,8 @@ def execute(cfg, decisions):
                 return
             if d == 'd':
                 return
-            if d == 'n':
-                face.deliver(bytes(enc.make_network_nack(wire, 150)))
+            if d in ('n', 'N'):
+                face.deliver(bytes(enc.make_network_nack(wire, 150 if d == 'n' else 100)))
                 return
             if kind == 'disc':
                 data = seg_data(cfg['k']) if cfg['n'] else bytes(enc.make_data(base, enc.MetaInfo(freshness_period=1000), b'whole-object', DigestSha256Signer()))
@@ -226,12 +229,13 @@ def explore_cfg(cfg, dbound, on_run):
         on_run(prefix, run)
         used = sum(1 for d in prefix if d != 'a')
         if used < dbound:
-            specials = sum(1 for d in prefix if d in 'ni')
+            specials = sum(1 for d in prefix if d in 'nNi')
             for i in range(len(prefix), run.attempts):
                 base = tuple(prefix) + ('a',) * (i - len(prefix))
                 stack.append(base + ('d',))
                 if specials == 0:
                     stack.append(base + ('n',))
+                    stack.append(base + ('N',))
                     stack.append(base + ('i',))
     return n
 
